@@ -40,6 +40,11 @@ theorem clean_brace {s : Str} (h : clean s = true) : cBrace ∉ s := fun m => ((
 theorem cleanV_iff {s : Str} : cleanV s = true ↔ ∀ c ∈ s, c ≠ cComma ∧ c ≠ cBrace := by
   simp [cleanV, List.all_eq_true]
 
+theorem cleanVal_iff {s : Str} : cleanVal s = true ↔ ∀ c ∈ s, c ≠ cComma := by
+  simp [cleanVal, List.all_eq_true]
+
+theorem cleanVal_comma {s : Str} (h : cleanVal s = true) : cComma ∉ s := fun m => ((cleanVal_iff.1 h) _ m) rfl
+
 theorem cleanV_comma {s : Str} (h : cleanV s = true) : cComma ∉ s := fun m => ((cleanV_iff.1 h) _ m).1 rfl
 theorem cleanV_brace {s : Str} (h : cleanV s = true) : cBrace ∉ s := fun m => ((cleanV_iff.1 h) _ m).2 rfl
 
@@ -59,7 +64,7 @@ theorem mem_labelStr {c : Nat} {kv : Str × Str} : c ∈ labelStr kv ↔ c ∈ k
 
 structure Safe (name : Str) (labels : Labels) : Prop where
   hname : cleanV name = true
-  hlabels : ∀ kv ∈ labels, clean kv.1 = true ∧ cleanV kv.2 = true
+  hlabels : ∀ kv ∈ labels, clean kv.1 = true ∧ cleanVal kv.2 = true
 
 theorem safe_of_labelSafe {name : Str} {labels : Labels} (h : LabelSafe name labels) : Safe name labels := by
   unfold LabelSafe labelSafe at h
@@ -134,7 +139,7 @@ theorem joinWith_cons {c : Nat} {x : Str} {r : List Str} (h : r ≠ []) :
   | cons y r => rfl
 
 /-- Lemma D: the comma-parts of `k1:v1,k2:v2,…,kn:vn,` -/
-theorem splitOn_labels {labels : Labels} (hl : ∀ kv ∈ labels, clean kv.1 = true ∧ cleanV kv.2 = true) :
+theorem splitOn_labels {labels : Labels} (hl : ∀ kv ∈ labels, clean kv.1 = true ∧ cleanVal kv.2 = true) :
     splitOn cComma (labels.flatMap labelStr) = labels.map kvStr ++ [[]] := by
   induction labels with
   | nil => rfl
@@ -145,7 +150,7 @@ theorem splitOn_labels {labels : Labels} (hl : ∀ kv ∈ labels, clean kv.1 = t
       rcases m with m | m | m
       · exact clean_comma (hl kv (by simp)).1 m
       · cases m
-      · exact cleanV_comma (hl kv (by simp)).2 m
+      · exact cleanVal_comma (hl kv (by simp)).2 m
     have : (kv :: ls).flatMap labelStr = kvStr kv ++ cComma :: ls.flatMap labelStr := by
       simp [List.flatMap_cons, labelStr]
     rw [this, splitOn_append_sep hc, ih (fun kv m => hl kv (by simp [m]))]
@@ -161,14 +166,9 @@ theorem joinWith_labels (L : Labels) : joinWith cComma (L.map kvStr ++ [[]]) = L
 
 /-! ### `by`: metric name and pairs -/
 
-theorem metricNameOf_sid {name rest : Str} (hn : cBrace ∉ name) (hr : cBrace ∉ rest) :
+theorem metricNameOf_sid {name rest : Str} (hn : cBrace ∉ name) :
     metricNameOf (name ++ cBrace :: rest) = name := by
   unfold metricNameOf
-  have h1 : List.count cBrace name = 0 := List.count_eq_zero.2 hn
-  have h2 : List.count cBrace rest = 0 := List.count_eq_zero.2 hr
-  have : List.count cBrace (name ++ cBrace :: rest) = 1 := by
-    simp [List.count_append, h1, h2]
-  rw [if_pos this]
   exact takeWhile_sep hn
 
 theorem labelPart_sid {name rest : Str} (hn : cBrace ∉ name) : labelPart (name ++ cBrace :: rest) = rest := by
@@ -217,10 +217,7 @@ theorem byKey_sid {name : Str} {labels : Labels} (fields : List Str) (h : Safe n
     byKey fields (seriesIdOf name labels) = render false name (specGroupKey fields false labels) := by
   unfold byKey render
   rw [extractPairs_sid fields h]
-  have hb : cBrace ∉ labels.flatMap labelStr :=
-    notMem_flatMap_labelStr (by decide) (by decide)
-      (fun kv m => ⟨clean_brace (h.hlabels kv m).1, cleanV_brace (h.hlabels kv m).2⟩)
-  have : metricNameOf (seriesIdOf name labels) = name := metricNameOf_sid (cleanV_brace h.hname) hb
+  have : metricNameOf (seriesIdOf name labels) = name := metricNameOf_sid (cleanV_brace h.hname)
   simp [this]
 
 /-! ### `without` -/
@@ -231,7 +228,7 @@ theorem keepPart_kvStr {fields : List Str} {kv : Str × Str} (hk : clean kv.1 = 
   rw [splitFirst_sep (clean_colon hk)]
 
 theorem filter_keepPart {fields : List Str} {labels : Labels}
-    (hl : ∀ kv ∈ labels, clean kv.1 = true ∧ cleanV kv.2 = true) :
+    (hl : ∀ kv ∈ labels, clean kv.1 = true ∧ cleanVal kv.2 = true) :
     (labels.map kvStr ++ [[]]).filter (keepPart fields)
       = (labels.filter (fun kv => !fields.contains kv.1)).map kvStr ++ [[]] := by
   induction labels with
@@ -268,7 +265,7 @@ theorem withoutKey_sid {name : Str} {labels : Labels} (fields : List Str) (h : S
         simpa [seriesIdOf] using splitOn_notMem this
       | cons kv ls =>
         refine ⟨kvStr kv, ?_, rfl⟩
-        have hls : ∀ kv ∈ ls, clean kv.1 = true ∧ cleanV kv.2 = true := fun kv m => h.hlabels kv (by simp [m])
+        have hls : ∀ kv ∈ ls, clean kv.1 = true ∧ cleanVal kv.2 = true := fun kv m => h.hlabels kv (by simp [m])
         have hc : cComma ∉ name ++ cBrace :: kvStr kv := by
           intro m
           simp only [kvStr, List.mem_append, List.mem_cons] at m
@@ -277,7 +274,7 @@ theorem withoutKey_sid {name : Str} {labels : Labels} (fields : List Str) (h : S
           · cases m
           · exact clean_comma (h.hlabels kv (by simp)).1 m
           · cases m
-          · exact cleanV_comma (h.hlabels kv (by simp)).2 m
+          · exact cleanVal_comma (h.hlabels kv (by simp)).2 m
         have : seriesIdOf name (kv :: ls) = (name ++ cBrace :: kvStr kv) ++ cComma :: ls.flatMap labelStr := by
           simp [seriesIdOf, List.flatMap_cons, labelStr]
         rw [this, splitOn_append_sep hc, splitOn_labels hls]
